@@ -210,6 +210,46 @@ func propFinal(c harness.Case) harness.Result {
 	return res
 }
 
+// ---- last lines: the final-newline clause is about what the last line of the
+// input is when nothing follows it. Every kind of line that the block and
+// inline rules treat specially, as the last line of every kind of context.
+var lastLines = []string{
+	"a", "a  ", "a\\", "a\\\\", "*a", "a*", "`a", "a`", "``", "[a]", "[a][]", "[a][b]", "[a](", "[a](/u", "[a](/u)", "[a](/u \"t", "![a]", "<b", "<b>", "</b>", "<!--", "<!-- c -->", "<?x", "&amp", "&amp;", "&#35", "a&", "<http://a.b>",
+	"# h", "# h #", "#", "# ", "####### x", "#h", "===", "---", "=", "-", "--", "***", "* * *", "_ _ _", "- ", "-", "+", "*", "1.", "1. ", "1)", "10. a", "- a", "> a", ">", "> ", ">>",
+	"```", "````", "~~~", "``` go", "``` foo`", "```go`", "~~~ a`b", "~~~x~", "``` `", "`````x", "    code", "    ", "  ", "\t", "\tcode", "     x",
+	"<div>", "</div>", "<div", "<pre>", "</pre>", "<script>", "</script>", "<!-- x", "-->", "<?php", "?>", "<!X", "<![CDATA[", "]]>", "<a href=\"x\">", "<span>", "<x-y z>",
+	"[r]: /u", "[r]:", "[r]: /u \"t\"", "[r]: /u \"t", "[r]: /u 't'x", "[r]: <u>", "[r]: </u", "[r", "[r]", "\"title\"", "'t'", "(t)", "/u",
+	"|a|b|", "a | b", ":--", "\\", "\\#", "&", "<", ">", "\x00", "a\x00", "é", "\xff", "a\u00a0", "\u00a0", "\f", "a\f",
+}
+
+var lastContexts = []string{
+	"", "a\n", "a\n\n", "> ", "> a\n> ", "> a\n", "- ", "- a\n  ", "- a\n\n  ", "- a\n", "1. ", "> - ", "- > ", "```\n", "``` x\na\n", "~~~~\n", "    c\n", "    c\n\n", "<div>\n", "<pre>\n", "<!-- c\n", "<script>\n",
+	"[r]: /u\n", "[r]:\n", "[r]: /u\n\"t\n", "# h\n", "a\n===\n", "***\n", "a  \n", "a\\\n", "[a](/u\n", "`a\n", "*a\n", "<b\n", "- a\n- ", "- a\n\n- ", "> a\n\n> ", "-\n  ", "1.\n   ",
+}
+
+func lastLineCheck(t *testing.T, plan harness.Plan) {
+	const name = "last_lines"
+	if harness.Cfg().Shard != 0 {
+		return
+	}
+	n := 0
+	for _, ctx := range lastContexts {
+		for _, l := range lastLines {
+			for ending := 0; ending <= 2; ending++ {
+				c := harness.Case{In: []byte(ctx + l)}
+				c.SetI("ending", ending)
+				res := propFinal(c)
+				n++
+				harness.Count(name, &c, true)
+				if res.Err != nil && harness.Fail(t, plan, name, c, res.Err) {
+					return
+				}
+			}
+		}
+	}
+	harness.SetExhaustive(name, fmt.Sprintf("%d contexts x %d last lines x 3 line-ending styles = %d inputs", len(lastContexts), len(lastLines), n))
+}
+
 func genPad(t *rapid.T) harness.Case {
 	x := gen.Doc().Draw(t, "in")
 	n := rapid.IntRange(1, 5).Draw(t, "padlines")
@@ -235,7 +275,7 @@ func genPad(t *rapid.T) harness.Case {
 
 func TestProperty(t *testing.T) {
 	doc := func(t *rapid.T) harness.Case { return harness.Case{In: gen.Doc().Draw(t, "in")} }
-	harness.Run(t, harness.Plan{Prop: "C14", Suppress: findings.Suppressor("C14"), Checks: []harness.Check{
+	plan := harness.Plan{Prop: "C14", Suppress: findings.Suppressor("C14"), Checks: []harness.Check{
 		{Name: "line_endings", Quick: 60000, Thorough: 800000, Gen: doc, Prop: propEndings,
 			Rule: "G1/G2/G3 inputs with every CR removed; LF(HTML(crlf(x))) == LF(HTML(x)) and LF(HTML(cr(x))) == LF(HTML(x)) byte for byte under the default renderer; non-trivial = >= 1 line ending and a code block, hard break, HTML block, multi-line inline construct or container"},
 		{Name: "padding", Quick: 60000, Thorough: 800000, Gen: genPad, Prop: propPad,
@@ -246,5 +286,9 @@ func TestProperty(t *testing.T) {
 			return c
 		}, Prop: propFinal,
 			Rule: "G1/G2/G3 inputs with trailing line endings removed; O3 normal form of the safe-mode rendering of x and of x+ending equal, for (any x, LF), (x in pure CRLF, CRLF), (x in pure CR, CR); non-trivial as for line_endings"},
-	}})
+		{Name: "last_lines", Prop: propFinal,
+			Rule: "enumerated: every kind of line the block and inline rules treat specially (unfinished and finished constructs, markers alone, fences with and without info strings and backticks, underlines, HTML block openers and closers, definitions and their parts, white space, NUL, invalid UTF-8) as the last line, without line ending, of every kind of context (empty, after a paragraph, in quotes and items, in open code / HTML blocks, after a definition, inside unfinished inline constructs), under the final-newline relation in all three line-ending styles"},
+	}}
+	plan.After = func(t *testing.T) { lastLineCheck(t, plan) }
+	harness.Run(t, plan)
 }
